@@ -41,6 +41,7 @@ func (c19) Gen(r *rand.Rand, tier string, run int) *core.Case {
 	c.Params["servers"] = servers
 	c.Params["multi_addr"] = r.IntN(2)
 	c.Params["addr_order"] = r.IntN(2)
+	c.Params["subscribe"] = r.IntN(2)
 	n := 2 + r.IntN(5)
 	for g := 0; g < n; g++ {
 		k := 1 + r.IntN(2)
@@ -196,6 +197,21 @@ func (c19) Run(c *core.Case, env *core.Env) {
 				h = env.Invoke(a+1, "call", fmt.Sprintf("%s@%s", tokOf(tok).Key(), name))
 				ret, err := probe.MakeProbe(sess, p).Echo(tok)
 				env.Return(h, tokOf(ret).String(), err)
+				if c.P("subscribe", 0) == 1 && err == nil && (i+a)%2 == 0 {
+					// a working proxy also carries subscriptions: the
+					// bookkeeping of the registrations is per connection,
+					// shared by every proxy the session hands out
+					h = env.Invoke(a+1, "subscribe", fmt.Sprintf("%s@%s", tokOf(tok).Key(), name))
+					cancel, ch, err := probe.MakeProbe(sess, p).SubscribeTick()
+					env.Return(h, "", err)
+					if err == nil {
+						go func() {
+							for range ch {
+							}
+						}()
+						cancel()
+					}
+				}
 			}
 		}(a)
 	}
